@@ -32,6 +32,7 @@ def expected(root):
     ends = collections.defaultdict(list)
     span_end = collections.defaultdict(list)
     interior = {}
+    exact_indent = {}
     for path, m in walker.walk(root):
         if isinstance(m, SurroundingCommentsMixin):
             d = vars(m)
@@ -52,6 +53,7 @@ def expected(root):
             ind = '_indent' in d
             starts[id(body[0])] = (path, ind)
             ends[id(body[-1])].append((path, ind))
+            exact_indent[path] = d['_indent'].raw_text if ind and isinstance(d.get('_indent'), models.Indent) else ''
             # the model's extent including comments inside it (e.g. indented comments that close an entry's block)
             ext = list(mt)
             while ext and isinstance(ext[-1], walker.SPACING):
@@ -92,6 +94,14 @@ def expected(root):
                 break
             if j >= 0 and id(toks[j]) in ends:
                 c = {pa for pa, ind in ends[id(toks[j])] if ind == cind}
+                if len(c) > 1:
+                    # a posting and its last meta item end on the same line. Where the comment stands exactly at the posting's
+                    # indentation and the meta item is indented deeper, documentation ("same indentation") and indentation class
+                    # agree: it is the posting's. (A comment at the meta item's depth stays open: the two readings differ there.)
+                    outer = min(c, key=len)
+                    if all(pa.startswith(outer) for pa in c) and exact_indent.get(outer) == t.indent and \
+                            all(exact_indent.get(pa) != t.indent for pa in c if pa != outer):
+                        c = {outer}
                 if c:
                     res = ('trailing-or-standalone' if ambiguous else 'trailing', c, '')
                 elif res is None and not ambiguous:
